@@ -525,7 +525,7 @@ func parseImports(parent importDef, src sourceCtxHelper, input string) ([]import
 func walkTree(filename string, listener *TreeShapeListener, tree antlr.Tree) (err error) {
 	defer func() {
 		if r := recover(); r != nil {
-			err = syslutil.Exitf(ParseError, fmt.Sprintf("%s: %v\n", filename, r))
+			err = syslutil.Exitf(ParseError, "%s: %v\n", filename, r)
 		}
 	}()
 	antlr.NewParseTreeWalker().Walk(listener, tree)
